@@ -210,3 +210,16 @@ Proof.
   split; [intros n o H; injection H as <- <-; exists 3%nat; repeat split; reflexivity|].
   split; [intros n o H; injection H as <- <-; exists 3%nat; repeat split; reflexivity|exact I].
 Qed.
+
+(* the reuse hypotheses of C20_H1_stateless_given_object_reuse are consistent: the observer instance satisfies
+   them with sim = eq *)
+Example C20_H1_reuse_hypotheses_satisfiable tr c tb outs tb1 :
+  runR obsV 0%Z obsX unit (matrix obsV) obs_new obs_new obs_apply obs_solve obs_solve_mtx tb (tr ++ [c]) = Some (outs, tb1) ->
+  exists outs' tb1',
+    runR obsV 0%Z obsX unit (matrix obsV) obs_new obs_new obs_apply obs_solve obs_solve_mtx tb
+         (filter (fun c => negb (is_use obsV obsX c)) tr ++ [c]) = Some (outs', tb1')
+    /\ last outs' ONone = last outs ONone.
+Proof.
+  apply (C20_H1_stateless_given_object_reuse obsV 0%Z obsX unit (matrix obsV) obs_new obs_new obs_apply obs_solve obs_solve_mtx eq);
+    intros; subst; reflexivity.
+Qed.
